@@ -139,6 +139,16 @@ func StrOver(n int, alphabet string) string {
 	return s
 }
 
+// Input returns a concrete string supplied by the driver (self-test vectors).
+func Input(name string) string {
+	it := next("input")
+	b := make([]byte, len(it.S))
+	for i, v := range it.S {
+		b[i] = byte(v)
+	}
+	return string(b)
+}
+
 // Pick returns a concrete choice in 0..n-1; the engine forks n ways.
 func Pick(n int) int {
 	v := int(next("pick").V)
@@ -164,8 +174,15 @@ func Assume(c bool) {
 	}
 }
 
+// FailStop is the panic value that ends a native replay at the first Fail
+// (the engine ends the path there too).
+type FailStop struct{ Msg string }
+
 // Fail states that the property is violated on this path.
-func Fail(msg string) { Failed = append(Failed, msg) }
+func Fail(msg string) {
+	Failed = append(Failed, msg)
+	panic(FailStop{msg})
+}
 
 // Cover is a reachability witness: the engine requires that some explored path
 // calls Cover(name, true) (vacuity guard).
@@ -276,6 +293,9 @@ func RunOne(i int, raw []byte, reg map[string]func(), timeout time.Duration) Out
 					o.Msg = e.Msg
 				case AssumeViolated:
 					o.Outcome = "assume"
+				case FailStop:
+					o.Outcome = "fail"
+					o.Msg = e.Msg
 				default:
 					o.Outcome = "panic"
 					o.Msg = fmt.Sprint(r)
